@@ -105,6 +105,29 @@ Theorem C01_remote_offered_at_most_max_tries :
 Proof. exact IntegLemmas.integ_offered_at_most_max_tries. Qed.
 Print Assumptions C01_remote_offered_at_most_max_tries.
 
+(* ... nor offered again once a next hop accepted it or refused it for good *)
+Require Maddy.Queue.IntegCorr Maddy.Queue.IntegOrder.
+Theorem C01_remote_never_offered_after_settled :
+  forall mx (rs : Integ.script Integ.rr) (ds : Integ.script Integ.dr) rcpts r,
+    NoDup (map fst rcpts) ->
+    IntegCorr.settled_then_offered
+      (snd (Integ.run mx (N.to_nat mx) 0 {| Integ.q_pending := rcpts; Integ.q_rs := rs; Integ.q_ds := ds |})) r false = false.
+Proof. exact IntegOrder.integ_never_offered_after_settled. Qed.
+Print Assumptions C01_remote_never_offered_after_settled.
+
+(* Together: the monitor that is run on what the real queue and target.remote did against scripted
+   servers is silent on every history the model produces, for every script of server behaviour -
+   so a monitor alarm on an implementation history is a behaviour outside the proved model. *)
+Theorem C01_remote_model_histories_pass_the_monitor :
+  forall mx (rs : Integ.script Integ.rr) (ds : Integ.script Integ.dr) rcpts,
+    NoDup (map fst rcpts) -> 0 < mx ->
+    IntegCorr.monitor
+      {| IntegCorr.c_max := mx; IntegCorr.c_rcpts := rcpts; IntegCorr.c_rscript := rs; IntegCorr.c_dscript := ds;
+         IntegCorr.c_events := snd (Integ.run mx (N.to_nat mx) 0 {| Integ.q_pending := rcpts; Integ.q_rs := rs; Integ.q_ds := ds |});
+         IntegCorr.c_removed := true |} = [].
+Proof. exact IntegOrder.integ_model_history_satisfies_monitor. Qed.
+Print Assumptions C01_remote_model_histories_pass_the_monitor.
+
 (* non-vacuity: three recipients in two domains; the first server drops the connection at the
    second recipient, then refuses the content once; the third recipient is refused for good *)
 Example C01_remote_nonvacuous :
